@@ -80,10 +80,12 @@ CommitteeMatches == IsState =>
          /\ AsPairs(c.delegates) = expD
          /\ (Len(exp) > 0 /\ cur.small) => (c.total = SumPower(exp, 1) /\ c.maj23 = Maj23(c.total))
 HistoryStable == IsState => Scan.histOK
+\* ---- C14 (ledger side) ----
+SlashOnce == cur.kind = "block" => \A i \in Idx(cur.dblsign) : cur.dblsign[i].indexed
 
 \* one-pass reporting (always true; prints the lines whose recorded real state falsifies a predicate)
 Preds == [SumEq |-> SumEq, NoWrap |-> NoWrap, MintBound |-> MintBound, StakedTally |-> StakedTally, DelegatedTally |-> DelegatedTally,
           CommitteeTallies |-> CommitteeTallies, MarkersMatch |-> MarkersMatch, NoWedge |-> NoWedge,
-          CommitteeMatches |-> CommitteeMatches, HistoryStable |-> HistoryStable]
+          CommitteeMatches |-> CommitteeMatches, HistoryStable |-> HistoryStable, SlashOnce |-> SlashOnce]
 Report == (\A p \in DOMAIN Preds : Preds[p]) \/ PrintT(<<"VIOL", l - 1, Preds>>)
 =============================================================================
